@@ -357,6 +357,7 @@ type Runner struct {
 type keptCall struct {
 	args []object.Object
 	desc string
+	what string
 }
 
 func describeArgs(args []object.Object) string {
@@ -373,7 +374,16 @@ func describeArgs(args []object.Object) string {
 
 func (r *Runner) keep(args []object.Object) {
 	if len(r.kept) < 48 && len(args) > 0 {
-		r.kept = append(r.kept, keptCall{args: args, desc: describeArgs(args)})
+		r.kept = append(r.kept, keptCall{args: args, desc: describeArgs(args), what: "a host function was called with"})
+	}
+}
+
+// Give hands a variable to the evaluator the way a host does, and keeps the
+// object: it is the host's, whatever the script does with the variable.
+func (r *Runner) Give(name string, o object.Object) {
+	r.E.SetVariable(name, o)
+	if len(r.kept) < 64 && o != nil {
+		r.kept = append(r.kept, keptCall{args: []object.Object{o}, desc: describeArgs([]object.Object{o}), what: "the host gave the variable " + name + " the object"})
 	}
 }
 
@@ -394,7 +404,7 @@ func (r *Runner) Drift() (s string) {
 			if len(was) > 300 {
 				was = was[:300] + "..."
 			}
-			return fmt.Sprintf("a host function was called with (%s); the same arguments, kept by the host, later read (%s)", was, now)
+			return fmt.Sprintf("%s (%s); the same object(s), kept by the host, later read (%s)", k.what, was, now)
 		}
 	}
 	return ""
@@ -559,7 +569,7 @@ func QuickAfter(script string, obj interface{}, vars map[string]lang.Value, noOp
 	}
 	sort.Strings(names)
 	for _, k := range names {
-		r.E.SetVariable(k, ToObject(vars[k]))
+		r.Give(k, ToObject(vars[k]))
 	}
 	err, pan := r.Prepare(noOpt)
 	if pan != nil {
